@@ -122,6 +122,7 @@ def s_format(rng):
     tree = Tree(t, metadata=gen.gen_metadata(rng) if maybe(rng, 0.3) else {})
     op = {'op': 'format', 'tree': j_tree(tree), 'indent': rng.choice([None, -1, -1, 0, 1, 2, 3, 4, 7]),
           'compact': maybe(rng, 0.4)}
+    op['tree']['build'] = rng.choice(['given', 'given', 'later', 'default'])     # how the Tree object is constructed
     drop_defaults(rng, op)
     return op
 
